@@ -42,6 +42,7 @@ NORMALISATIONS = [
     '`matches!(E, b".." | b"..")` on a slice is expanded to length + element comparisons generated from the literals (Verus mis-encodes byte-string patterns)',
     'a `const NAME: T = e;` item inside a function body becomes `let NAME: T = e;` (Verus gives body-local consts spec mode)',
     '`//@ inline NAME`: a parameterless non-escaping local closure is inlined at its call sites (calls must be in return position, or of the form `NAME()?` when the closure leaves early only through `?` / fail!, when the closure can leave early; not inside loops / other closures)',
+    'comments inside extracted bodies are removed before the rewrites are applied',
     'the per-unit rewrite table (regex => replacement with expected match count) listed under rewrites',
 ]
 
@@ -411,6 +412,7 @@ def _emit_fn(fb, src, out, meta):
     if new_name:
         sig = re.sub(r'\bfn\s+%s\b' % re.escape(a['item']), 'fn ' + new_name, sig, count=1)
     sig = _apply_rw(sig, fb.sig_rw, label + ' (signature)', meta['rewrites'])
+    body = rsrc.strip_comments(body)      # comments are not code: rewrites and the verifier see the body without them
     body = _split_debug_assert(body)
     body = _expand_bytes_matches(body)
     body = re.sub(r'(?m)^([ \t]*)const ([A-Z_][A-Z0-9_]*)\s*:', r'\1let \2:', body)
